@@ -81,7 +81,7 @@ public:
       const bool  thorough = (tier == "thorough");
       Json  plan = Json::object();
       plan[ "prop"] = "C07";
-      Json  recipe = recipes::genRecipe( cfg, true, false);
+      Json  recipe = recipes::genRecipe( cfg, true, false, false, false, true);
       plan[ "recipe"] = recipe;
       static const char* const  progs[] = { "prog", "/usr/bin/prog", "./bin/my-tool", "tool.v2", "/opt/x/Y_z", "a" };
       plan[ "argv0"] = progs[ cfg.below( 6)];
@@ -290,7 +290,8 @@ public:
             else if (src == "e") { we.push_back( word); env_styles.push_back( style); }
             else { wa.push_back( word); argv_styles.push_back( style); }
          }
-         if (words.at( 0).s()[ 0] != '-' && !it.geti( "once", 0) && k > 0) st.probe( P_value_list_continued);
+         if (words.at( 0).s()[ 0] != '-' && words.at( 0).s() != "!" && words.at( 0).s() != "(" && words.at( 0).s() != ")"
+             && !it.geti( "once", 0) && k > 0) st.probe( P_value_list_continued);
          if (src == "f")
          {
             const long long  line = it.geti( "line", 0);
